@@ -82,7 +82,8 @@ def register(S):
     S.external("Lock.acquire", params={"self": "obj:Lock", "blocking": "bool"}, result="bool", defaults={"blocking": True},
                note="Lock.acquire(False): takes the lock and returns True if it is free, else returns False",
                requires=["not blocking or not self.held"],
-               outcomes=[{"label": "got", "when": ["not self.held"], "sets": {"self.held": "True"}, "assume": ["result == True"]},
+               outcomes=[{"label": "got", "when": ["not self.held"], "sets": {"self.held": "True"}, "assume": ["result == True"],
+                          "events": [("LockTaken", "self")]},
                          {"label": "busy", "when": ["self.held"], "assume": ["result == False"]}])
     S.external("Lock.release", params={"self": "obj:Lock"}, result="none", requires=["self.held"],
                note="Lock.release() of a held lock", outcomes=[{"label": "ok", "sets": {"self.held": "False"}}])
